@@ -67,6 +67,7 @@ type Loop struct {
 	spec    *Block
 	// per-execution
 	decr0 []*Term
+	incr0 []*Term
 	wc    *writeConstraint
 	entryPhi map[*ssa.Phi]Val
 	entryPhiTmp map[*ssa.Phi]Val
